@@ -274,7 +274,18 @@ func c13Tree(c *harness.Check, cs lineCase) string {
 	var failure string
 	pi := c.Guard("json", mustJSON(cs), func() {
 		textwire.VerifReset()
+		// zzRenderOther renders another template of the same directory while a page is
+		// being rendered (what a helper function of an application may do)
+		var loaded *textwire.Template
+		textwire.RegisterStrFunc("zzRenderOther", func(s string, args ...any) string {
+			if loaded == nil {
+				return "(not loaded)"
+			}
+			out, _ := loaded.String(s, nil)
+			return out
+		})
 		tpl, err := textwire.NewTemplate(&config.Config{TemplateDir: "t", TemplateExt: ".tw"})
+		loaded = tpl
 		wantPath := filepath.Join(root, filepath.FromSlash(cs.WantFile))
 		if cs.AtLoad {
 			if err == nil {
@@ -313,7 +324,7 @@ func c13Tree(c *harness.Check, cs lineCase) string {
 
 func TestC13_Trees(t *testing.T) {
 	c := harness.New(t, "C13", "trees",
-		"template directories with a page, a layout and a component; multi-line filler before one fault: run-time faults in the page (top level, inside an @insert block, inside a slot body, inside a component argument) must report the page's absolute path and the construct's line; parse-time faults in the page, in the layout file and in the component file must make NewTemplate fail naming that file's absolute path and line; an @insert naming no reserve and an unknown @component must name the page and the line of that directive. Non-trivial: expected line > 1. Distinct by hash of the tree.")
+		"template directories with a page, a layout and a component; multi-line filler before one fault: run-time faults in the page (top level, inside an @insert block, inside a slot body, inside a component argument, after a custom function has rendered another template of the directory) must report the page's absolute path and the construct's line; parse-time faults in the page, in the layout file and in the component file must make NewTemplate fail naming that file's absolute path and line; an @insert naming no reserve and an unknown @component must name the page and the line of that directive. Non-trivial: expected line > 1. Distinct by hash of the tree.")
 	defer c.Finish()
 	runRapid(t, c, 1500, 15000, func(rt *rapid.T) {
 		fill := func() string {
@@ -328,7 +339,7 @@ func TestC13_Trees(t *testing.T) {
 		layout := fill() + "<html>@reserve(\"title\")\n<body>@reserve(\"content\")</body>" + fill() + "</html>\n"
 		comp := fill() + "<div>{{ arg }}@slot(\"s\")" + fill() + "@slot</div>\n"
 		page := "@use(\"lay\")\n" + fill() + "@insert(\"title\", \"T\")\n"
-		scenario := rapid.SampledFrom([]string{"page-top", "page-insert-block", "page-slot-body", "page-component-arg", "layout-parse", "component-parse", "page-parse", "undefined-insert", "unknown-component", "nolayout-page"}).Draw(rt, "scenario")
+		scenario := rapid.SampledFrom([]string{"page-top", "page-insert-block", "page-slot-body", "page-component-arg", "layout-parse", "component-parse", "page-parse", "undefined-insert", "unknown-component", "nolayout-page", "page-after-nested-render"}).Draw(rt, "scenario")
 		cs := lineCase{Fault: ff.kind, Page: "page", WantFile: "t/page.tw"}
 		compUse := func(arg, slotBody string) string {
 			return "@component(\"comp\", {arg: " + arg + "})\n@slot(\"s\")" + slotBody + "@end\n@slot in default@end\n@end\n"
@@ -345,6 +356,12 @@ func TestC13_Trees(t *testing.T) {
 				// so a run-time fault has to sit inside an insert
 				page += "@insert(\"content\")\n" + fill() + ff.src + "\n@end\n"
 			}
+		case "page-after-nested-render":
+			// another template is rendered (through a custom function) before the fault
+			if ff.parseTime {
+				cs.AtLoad = true
+			}
+			page = fill() + "plain page\n{{ \"other\".zzRenderOther() }}\n" + fill() + ff.src + "\n" + fill()
 		case "page-insert-block":
 			if ff.parseTime {
 				cs.AtLoad = true
@@ -401,7 +418,7 @@ func TestC13_Trees(t *testing.T) {
 		if cs.WantLine < 1 {
 			return
 		}
-		cs.Tree = tree.Tree{"t/page.tw": {Content: page}, "t/lay.tw": {Content: layout}, "t/comp.tw": {Content: comp}}
+		cs.Tree = tree.Tree{"t/page.tw": {Content: page}, "t/lay.tw": {Content: layout}, "t/comp.tw": {Content: comp}, "t/other.tw": {Content: "<other>\n{{ 1 + 1 }}\n</other>"}}
 		nt := cs.WantLine > 1
 		c.Case(nt, mustJSON(cs.Tree), "scenario:"+scenario, "fault:"+cs.Fault)
 		if nt {
